@@ -491,3 +491,84 @@ func init() {
 	executors["dict types"] = execDictTypes
 	generators["dict"] = genDict
 }
+
+// codec findn: the same by-name search in two messages that differ only in their dictionary
+func execFindN(toks []string) string {
+	sets, _ := kvGet(toks, "sets")
+	name, _ := kvGet(toks, "name")
+	mode, _ := kvGet(toks, "mode")
+	appS, _ := kvGet(toks, "app")
+	app, _ := strconv.ParseUint(appS, 10, 32)
+	var outs []string
+	for _, spec := range strings.Split(sets, "^") {
+		ls := loadSet(parseSpecGo(spec))
+		as := parseAVPs(findTok(toks, "["))
+		m := diam.NewMessage(257, 0x80, uint32(app), 1, 1, ls.p)
+		for _, a := range as {
+			m.AddAVP(a)
+		}
+		var res []*diam.AVP
+		var err error
+		r := guard(func() {
+			if mode == "first" {
+				var a *diam.AVP
+				a, err = m.FindAVP(name, dict.UndefinedVendorID)
+				if err == nil {
+					res = []*diam.AVP{a}
+				}
+			} else {
+				res, err = m.FindAVPs(name, dict.UndefinedVendorID)
+			}
+		})
+		switch {
+		case r != "":
+			outs = append(outs, r)
+		case err != nil:
+			outs = append(outs, "err")
+		default:
+			outs = append(outs, showAVPs(res))
+		}
+	}
+	return strings.Join(outs, " | ")
+}
+
+func genFindN(r *RNG, n int, emit func(string)) {
+	for i := 0; i < n; i++ {
+		name := fmt.Sprintf("G-Avp-%d", 1+r.Intn(3))
+		mk := func(code uint32, define bool) [][]gApp {
+			app := gApp{id: 0, cmds: []gCmd{{257, "CE", 1, 1}}}
+			if define {
+				app.avps = append(app.avps, gAVP{name, code, 0, "M", "Unsigned32"})
+			}
+			app.avps = append(app.avps, gAVP{"G-Other", 7, 0, "M", "Unsigned32"}, gAVP{"G-Grp", 8, 0, "M", "Grouped"})
+			return [][]gApp{{app}}
+		}
+		cA, cB := uint32(1+r.Intn(3)), uint32(1+r.Intn(3))
+		sets := specOf(mk(cA, true)) + "^" + specOf(mk(cB, r.Chance(80)))
+		if r.Chance(30) {
+			sets += "^" + specOf(mk(cA, true))
+		}
+		serial := uint32(0)
+		var mkT func(d int) *diam.AVP
+		mkT = func(d int) *diam.AVP {
+			serial++
+			if d < 2 && r.Chance(30) {
+				g := &diam.GroupedAVP{}
+				for k, m := 0, r.Intn(3); k < m; k++ {
+					g.AVP = append(g.AVP, mkT(d+1))
+				}
+				return diam.NewAVP(8, 0x40, 0, g)
+			}
+			return diam.NewAVP(uint32(1+r.Intn(3)), 0x40, 0, datatype.Unsigned32(serial))
+		}
+		var as []*diam.AVP
+		for k, m := 0, 1+r.Intn(5); k < m; k++ {
+			as = append(as, mkT(0))
+		}
+		emit(fmt.Sprintf("codec findn app=0 sets=%s name=%s mode=%s %s", sets, name, []string{"first", "all"}[r.Intn(2)], showAVPs(as)))
+	}
+}
+
+func init() {
+	executors["codec findn"] = execFindN
+}
